@@ -420,16 +420,74 @@ def G5(ctx: Ctx) -> RuleResult:
 
 # ------------------------------------------------------------------- G6
 def transformer_methods(ctx: Ctx) -> Tuple[Dict[str, FunctionInfo], Dict[str, bool]]:
-    pt = ctx.model.cls('PropertyTransformer', 'G6')
-    cls_inline = any('inline=True' in d.replace(' ', '') for d in pt.decorators if d.startswith('v_args'))
-    inline: Dict[str, bool] = {}
-    for name, fi in pt.methods.items():
-        il = cls_inline
-        for d in fi.decorators:
-            if d.startswith('v_args'):
-                il = 'inline=True' in d.replace(' ', '')
-        inline[name] = il
-    return pt.methods, inline
+    """callbacks of PropertyTransformer by rule name (methods, and class attributes bound to a method, to a
+    v_args-wrapped method or to a function built by a module-level factory), and whether each receives its children inline"""
+    def build():
+        import copy
+        pt = ctx.model.cls('PropertyTransformer', 'G6')
+        cls_inline = any('inline=True' in d.replace(' ', '') for d in pt.decorators if d.startswith('v_args'))
+        methods: Dict[str, FunctionInfo] = dict(pt.methods)
+        inline: Dict[str, bool] = {}
+        for name, fi in pt.methods.items():
+            il = cls_inline
+            for d in fi.decorators:
+                if d.startswith('v_args'):
+                    il = 'inline=True' in d.replace(' ', '')
+            inline[name] = il
+        mod = pt.module
+
+        def resolve(val: ast.expr, depth: int = 0):
+            """-> (FunctionDef node, inline override | None) or None"""
+            if depth > 4:
+                return None
+            if isinstance(val, ast.Name):
+                if val.id in pt.methods:
+                    return pt.methods[val.id].node, (inline[val.id] if any(d.startswith('v_args') for d in pt.methods[val.id].decorators) else None)
+                if val.id in pt.class_assigns:
+                    return resolve(pt.class_assigns[val.id], depth + 1)
+                return None
+            if isinstance(val, ast.Call) and isinstance(val.func, ast.Call) and ast.unparse(val.func.func).split('.')[-1] == 'v_args' and len(val.args) == 1:
+                inner = resolve(val.args[0], depth + 1)
+                if inner is None:
+                    return None
+                il = None
+                for kw in val.func.keywords:
+                    if kw.arg == 'inline' and isinstance(kw.value, ast.Constant):
+                        il = bool(kw.value.value)
+                return inner[0], il if il is not None else inner[1]
+            if isinstance(val, ast.Call) and isinstance(val.func, ast.Name) and val.func.id in mod.functions and not val.keywords \
+                    and all(isinstance(a, ast.Constant) for a in val.args):
+                # a callback built by a module-level factory: the nested function it returns, with the factory's
+                # parameters replaced by the constant arguments of this call
+                fac = mod.functions[val.func.id].node
+                nested = {n.name: n for n in fac.body if isinstance(n, ast.FunctionDef)}
+                ret = [n for n in fac.body if isinstance(n, ast.Return)]
+                if len(ret) == 1 and isinstance(ret[0].value, ast.Name) and ret[0].value.id in nested:
+                    params = [a.arg for a in fac.args.posonlyargs + fac.args.args]
+                    if len(params) != len(val.args):
+                        return None
+                    binding = dict(zip(params, val.args))
+                    node = copy.deepcopy(nested[ret[0].value.id])
+
+                    class Sub(ast.NodeTransformer):
+                        def visit_Name(self, n):
+                            if isinstance(n.ctx, ast.Load) and n.id in binding:
+                                return ast.copy_location(ast.Constant(binding[n.id].value), n)
+                            return n
+                    node = ast.fix_missing_locations(Sub().visit(node))
+                    return node, None
+            return None
+        for name, val in pt.class_assigns.items():
+            if name.startswith('_') or name in methods:
+                continue
+            got = resolve(val)
+            if got is None:
+                continue
+            node, il = got
+            methods[name] = FunctionInfo(name, f'{pt.name}.{name}', mod, node, pt, 'method')
+            inline[name] = cls_inline if il is None else il
+        return methods, inline
+    return ctx.memo('transformer_methods', build)
 
 
 def callback_rules(ctx: Ctx, v: View) -> Set[str]:
@@ -582,7 +640,27 @@ def G7(ctx: Ctx) -> RuleResult:
     lx = lexemes(t) if t else None
     if ta is None or lx is None:
         raise AnalysisError('G7', 'time_amount / TIME_UNIT not found')
-    units = {c.value for node in ast.walk(ta.node) if isinstance(node, ast.Compare) for c in node.comparators if isinstance(c, ast.Constant) and isinstance(c.value, str)}
+    def dispatched_strings(name: str) -> Set[str]:
+        """string constants a callback compares a child with (if-chains, asserts, membership tests, table lookups)"""
+        from .rules_flows import callback_outcomes
+        from .terms import Const as _C, Op as _O, Sym as _S, TupleT as _T, expand_outcomes as _xo, walk as _w
+        _, outs_, _ = callback_outcomes(ctx, name)
+        found: Set[str] = set()
+        for o_ in _xo(outs_):
+            for g_ in [g for g, _ in o_.guards] + list(o_.asserts):
+                for x in _w(g_):
+                    if isinstance(x, _O) and x.op in ('==', '!=', 'in', 'not in') and len(x.args) == 2 and isinstance(x.args[0], (_S,)) or \
+                            (isinstance(x, _O) and x.op in ('==', '!=', 'in', 'not in') and len(x.args) == 2 and 'children' in repr(x.args[0])):
+                        rhs = x.args[1]
+                        rhs = getattr(rhs, 'value', rhs) if type(rhs).__name__ == 'GlobalVal' else rhs
+                        if isinstance(rhs, _C) and isinstance(rhs.value, str):
+                            found.add(rhs.value)
+                        elif isinstance(rhs, _T):
+                            found.update(y.value for y in rhs.items if isinstance(y, _C) and isinstance(y.value, str))
+                        elif type(rhs).__name__ == 'DictT':
+                            found.update(k.value for k, _ in rhs.items if isinstance(k, _C) and isinstance(k.value, str))
+        return found
+    units = dispatched_strings('time_amount')
     if units == lx:
         r.ok(f'TIME_UNIT {sorted(lx)} == units dispatched by time_amount')
     else:
@@ -590,7 +668,7 @@ def G7(ctx: Ctx) -> RuleResult:
     # TRUE / FALSE
     bo = methods.get('boolean')
     tv = {n: v.terminals[n].value for n in ('TRUE', 'FALSE') if n in v.terminals}
-    strs = {c.value for node in ast.walk(bo.node) if isinstance(node, ast.Compare) for c in node.comparators if isinstance(c, ast.Constant)} if bo else set()
+    strs = dispatched_strings('boolean') if bo else set()
     if set(tv.values()) == strs and len(tv) == 2:
         r.ok(f'TRUE/FALSE lexemes {sorted(strs)} == strings dispatched by boolean()')
     else:
